@@ -96,7 +96,7 @@ class Labels(Machine):
                        "labeller_array", "labeller_pointcloud", "labeller_labelled_graph", "labeller_wrong_size",
                        "labeller_via_manager", "labeller_3d", "labeller_commutes_checked",
                        "caller_reuses_constructor_buffers", "with_labels_in_other_order", "selection_of_nothing_refused", "with_labels_naming_a_label_twice", "uncovered_point_refused_at_construction", "group_with_an_empty_label_kept",
-                       "add_label_with_empty_index_set", "graph_with_self_loop") + tuple("ran_" + n for n in LABELLERS)
+                       "add_label_with_empty_index_set", "labeller_given_a_column_major_array", "add_label_with_indices_counted_from_the_end", "graph_with_self_loop") + tuple("ran_" + n for n in LABELLERS)
 
     @classmethod
     def swarm(cls, rng, tier):
@@ -415,6 +415,11 @@ class Labels(Machine):
             ix = ()
             arg = [np.array([], dtype=int), [], range(0)][(op["seed"] >> 4) % 3]
             self.ctx.probe("add_label_with_empty_index_set")
+        elif (op["seed"] >> 7) % 4 == 0:
+            # "indices in to the points" index the way NumPy indexes: some are spelled from the end
+            neg = [i - n if (j + op["seed"]) % 2 == 0 else i for j, i in enumerate(ix)]
+            arg = np.array(neg) if op["seed"] & 1 else neg
+            self.ctx.probe("add_label_with_indices_counted_from_the_end")
         if existing:
             labels = [(a, ix if a == nm else b) for a, b in m.labels]
         else:
@@ -487,6 +492,10 @@ class Labels(Machine):
         form = op["form"] % 4
         if form == 0:
             x = pts.copy()
+            if (op["seed"] >> 3) % 3 == 0:
+                # the same values in another memory layout (coordinates kept per axis, then transposed)
+                x = np.asfortranarray(pts) if (op["seed"] >> 5) & 1 else np.ascontiguousarray(pts.T).T
+                ctx.probe("labeller_given_a_column_major_array")
         elif form == 1:
             x = PointCloud(pts.copy())
         elif form == 2:
